@@ -201,6 +201,7 @@ static int parse_ifdef_expression(
   Symbols::Entry *symbols_entry;
   int token_type;
   int is_not = 0;
+  int not_seen = 0;
   int n1 = 0;
   int n;
   // A call made for a higher precedence operator (entered with state 1)
@@ -223,13 +224,11 @@ printf("debug> #if: %d) %s   n=%d paren_count=%d precedence=%d state=%d\n", toke
     {
       tokens_push(asm_context, token, token_type);
 
-#if 0
       if (paren_count != 0)
       {
         print_error(asm_context, "Unbalanced parentheses.");
         return -1;
       }
-#endif
 
       if (state != 1)
       {
@@ -262,6 +261,7 @@ printf("debug> #if eval_operation() @EOL  n=%d precedence=%d state=%d\n", n, pre
         if (IS_TOKEN(token,'!'))
         {
           is_not ^= 1;
+          not_seen = 1;
           continue;
         }
           else
@@ -299,6 +299,12 @@ printf("debug> #if eval_operation() @paren  n=%d\n", n);
           *num = n;
           return 0;
         }
+          else
+        {
+          // Any other symbol is not an operand.
+          print_error_unexp(asm_context, token);
+          return -1;
+        }
       }
         else
       if (token_type == TOKEN_STRING)
@@ -335,13 +341,21 @@ printf("debug> #if: parse_defined()=%d\n", n);
       {
         n = atoi(token);
       }
-
-      if (is_not == 1)
+        else
       {
-        if (n == 0) { n = 1; }
-        else { n = 0; }
+        // Anything else (a comparison, a quoted string) is not an operand.
+        print_error_unexp(asm_context, token);
+        return -1;
+      }
+
+      if (not_seen == 1)
+      {
+        // An even number of ! still turns the operand into 0 or 1.
+        if (is_not == 1) { n = (n == 0) ? 1 : 0; }
+        else { n = (n != 0) ? 1 : 0; }
 
         is_not = 0;
+        not_seen = 0;
       }
 
       state = 1;
@@ -459,6 +473,7 @@ printf("debug> parse_ifdef_expression() result is %d\n", num);
     asm_context->tokens.line++;
   }
 
-  return num;
+  // -1 is reserved for errors: only the truth of the expression is returned.
+  return num != 0 ? 1 : 0;
 }
 
